@@ -422,6 +422,7 @@ loop: // we need this label to continue the for loop from within the select belo
 				safeprimes = append(safeprimes, p) // include p as it might match with future safe primes
 				continue loop
 			}
+			common.VerifPoint("keygen.beforeCloseStop")
 			close(stop) // We have enough, stop safeprime.GenerateConcurrent()
 			return p, q, nil
 
